@@ -81,3 +81,55 @@ Theorem C10_genesis_leaver_refuted :
     fold_left ValSet.apply_updates upss (sort_addr (gen_validators g)) <> sort_addr (lastvals sf).
 Proof. exact InvValSet.C10_genesis_leaver_refuted. Qed.
 Print Assumptions C10_genesis_leaver_refuted.
+
+(* the history theorems with the hypothesis about intermediate states ([sel_positive] at every
+   block start) discharged from the inputs: genesis parameters in range (amountPerPower <=
+   minValidatorStake, so every selected validator has own power >= 1), genesis powers in the int64
+   range, and parameter documents of submitted proposals that keep parameters well formed
+   ([opts_ok], a condition on the transactions of the blocks). *)
+From Rigo Require InvReach InvClosed.
+Theorem C10_fold_closed : forall g bs sf upss,
+  params_ok (gen_params g) -> Forall (fun v : addr * Z => 0 <= v.2 < two63) (gen_validators g) ->
+  InvReach.opts_ok (ops_of bs) ->
+  run_blocks (init_chain g) bs = Some (sf, upss) ->
+  srun (init_chain g) (ops_of bs) = sf /\
+  length (committed sf) = length bs /\
+  lastvals sf = announced sf /\
+  ValSet.tm_run [] upss = Some (sort_addr (lastvals sf)) /\
+  fold_left ValSet.apply_updates upss [] = sort_addr (lastvals sf).
+Proof. exact InvClosed.C10_history_closed. Qed.
+Print Assumptions C10_fold_closed.
+
+(* [opts_ok] on the operations of a block list is a condition on the transactions *)
+Theorem C10_opts_ok_inputs : forall bs,
+  InvReach.opts_ok (ops_of bs) <-> Forall (fun b : header * list tx => Forall InvReach.tx_opts_ok b.2) bs.
+Proof. exact InvClosed.opts_ok_ops_of. Qed.
+
+(* C10_holds: the covering hypothesis (the known finding C10_genesis_leaver_refuted) stays *)
+Theorem C10_holds_closed : forall g b1 b2 rest s2 u12 sf upss,
+  params_ok (gen_params g) -> Forall (fun v : addr * Z => 0 <= v.2 < two63) (gen_validators g) ->
+  InvReach.opts_ok (ops_of (b1 :: b2 :: rest)) ->
+  NoDup (gen_validators g).*1 ->
+  run_blocks (init_chain g) [b1; b2] = Some (s2, u12) ->
+  (forall a, a ∈ (gen_validators g).*1 -> a ∈ (lastvals s2).*1) ->
+  run_blocks (init_chain g) (b1 :: b2 :: rest) = Some (sf, upss) ->
+  fold_left ValSet.apply_updates upss (sort_addr (gen_validators g)) = sort_addr (lastvals sf).
+Proof. exact InvClosed.C10_closed. Qed.
+Print Assumptions C10_holds_closed.
+
+(* ... and in input terms: the selection announced at block 2 is made from the ledger block 1
+   committed, so it covers the genesis set when block 1 carries no evidence, no votes and no
+   staking / unstaking transaction, the genesis powers meet the minimum validator power and the
+   genesis set fits the maximum validator count.  Every hypothesis is on the inputs. *)
+Theorem C10_holds_inputs : forall g b1 b2 rest sf upss,
+  params_ok (gen_params g) -> Forall (fun v : addr * Z => 0 <= v.2 < two63) (gen_validators g) ->
+  InvReach.opts_ok (ops_of (b1 :: b2 :: rest)) ->
+  NoDup (gen_validators g).*1 ->
+  Forall (fun v : addr * Z => min_power (gen_params g) <= v.2) (gen_validators g) ->
+  Z.of_nat (length (gen_validators g)) <= g_maxValidatorCnt (gen_params g) ->
+  h_evidence b1.1 = [] -> h_votes b1.1 = [] ->
+  Forall (fun t => t_type t <> TRX_STAKING /\ t_type t <> TRX_UNSTAKING) b1.2 ->
+  run_blocks (init_chain g) (b1 :: b2 :: rest) = Some (sf, upss) ->
+  fold_left ValSet.apply_updates upss (sort_addr (gen_validators g)) = sort_addr (lastvals sf).
+Proof. exact InvClosed.C10_closed_inputs. Qed.
+Print Assumptions C10_holds_inputs.
